@@ -211,6 +211,33 @@ def check_computed(case):
     return v, 'ok' if not v else 'violated', True
 
 
+def check_computed_chain(case):
+    """One call, three specs: the 2nd and 3rd read the fields the earlier specs of the same call add."""
+    vals = case['vals']
+    fields = ['x', 'y', 'z']
+    rows = [{'x': a, 'y': b, 'z': 'k%d' % i} for i, (a, b) in enumerate(vals)]
+    st, other = state(fields, rows, {'x': 'number', 'y': 'number'})
+    other[0].update({'x': 1, 'y': 2})
+    st.rows[0][0].update({'x': 1, 'y': 2})
+    specs = [{'target': 's1', 'operation': 'sum', 'source': ['x', 'y']},
+             {'target': 's2', 'operation': 'sum', 'source': ['s1', 'x']},
+             {'target': 's3', 'operation': 'format', 'with': '{z}:{s1}:{s2}'},
+             {'target': {'name': 's4', 'type': 'string'}, 'operation': lambda row: 'c:%s' % row['s3']}]
+    label = 'add_computed_field([s1=x+y, s2=s1+x, s3=format(z,s1,s2), s4=callable(s3)]) on rows %r' % (vals,)
+    kind, out = run_step(st, core.dataflows.add_computed_field(copy.deepcopy(specs[:3]) + [specs[3]], resources='t'))
+    if kind == 'exc':
+        return [('raises/computed-chain', '%s raises %s: %s' % (label, core.exc_sig(out), str(out)[:100]))], 'violated', True
+    exp_rows = []
+    for r in rows:
+        nn = lambda vs: [v for v in vs if v is not None]   # noqa
+        s1 = sum(nn([r['x'], r['y']]))
+        s2 = sum(nn([s1, r['x']]))
+        s3 = '{z}:{s1}:{s2}'.format(z=r['z'], s1=s1, s2=s2)
+        exp_rows.append(dict(r, s1=s1, s2=s2, s3=s3, s4='c:%s' % s3))
+    v = base_checks(label, 'computed-chain', out, other, fields + ['s1', 's2', 's3', 's4'], exp_rows)
+    return v, 'ok' if not v else 'violated', True
+
+
 def check_find_replace2(case):
     """Two listed fields (+1 unlisted): a null in one field must not affect the others."""
     fields = ['s', 'w', 'u']
@@ -218,13 +245,14 @@ def check_find_replace2(case):
     st, other = state(fields, rows)
     label = 'find_replace([s, w], a->z) on %r' % (case['vals'],)
 
-    def rep(v):
-        return None if v is None else re.sub('a', 'z', str(v))
-    spec = [{'name': 's', 'patterns': [{'find': 'a', 'replace': 'z'}]}, {'name': 'w', 'patterns': [{'find': 'a', 'replace': 'z'}]}]
+    def rep(v, a='a', z='z'):
+        return None if v is None else re.sub(a, z, str(v))
+    # the two listed fields have different patterns; equal raw values occur in both columns
+    spec = [{'name': 's', 'patterns': [{'find': 'a', 'replace': 'z'}]}, {'name': 'w', 'patterns': [{'find': 'a', 'replace': 'Q'}, {'find': 'x', 'replace': ''}]}]
     kind, out = run_step(st, core.dataflows.find_replace(spec, resources='t'))
     if kind == 'exc':
         return [('raises/find_replace', '%s raises %s' % (label, core.exc_sig(out)))], 'violated', True
-    exp_rows = [{'s': rep(r['s']), 'w': rep(r['w']), 'u': 'keep'} for r in rows]
+    exp_rows = [{'s': rep(r['s']), 'w': rep(rep(r['w'], 'a', 'Q'), 'x', ''), 'u': 'keep'} for r in rows]
     v = base_checks(label, 'find_replace', out, other, fields, exp_rows)
     return v, 'ok' if not v else 'violated', True
 
@@ -286,6 +314,9 @@ def cases(tier):
         for n in (1, 2):
             for vals in itertools.product(texts, repeat=n):
                 out.append({'proc': 'find_replace', 'vals': list(vals), 'pats': ps})
+    for n in (1, 2):
+        for vals in itertools.product(itertools.product(NUMV, repeat=2), repeat=n):
+            out.append({'proc': 'computed_chain', 'vals': [list(v) for v in vals]})
     cells = ['abc', None, 'xa']
     for n in (1, 2):
         for vals in itertools.product(itertools.product(cells, repeat=2), repeat=n):
